@@ -39,7 +39,7 @@ class C14(BaseCheck):
   REQUIRED_CLASSES = ('outcome:value', 'outcome:declared-exc', 'outcome:declared-exc-not-first', 'outcome:app-exc', 'outcome:void',
                       'iface:hello', 'iface:verif', 'iface:ext', 'iface:leaf', 'chunk:1cut', 'chunk:2cut', 'chunk:kcut',
                       'text:nonascii', 'text:empty', 'concurrent', 'two-services', 'short-sends', 'alternating-outcomes', 'call:positional-and-keyword', 'call:keyword-only', 'reply:slow-or-pausing', 'concurrent:interleaved-pieces',
-                      'text:over-a-mebibyte')
+                      'text:over-a-mebibyte', 'call-issued-while-opening')
   ASSUMPTIONS = ('interfaces: the repository\'s hello.Hello plus a hand-written module in the shape the '
                  'Thrift compiler emits (py:dynamic); no Thrift compiler is available offline',)
   QUICK_CASES = 480
@@ -288,6 +288,20 @@ class C14(BaseCheck):
       if judge(call_once(), '1cut(%d,) with a pause of %.0f s' % (cut_, plan['chunks'][0][1])):
         done += 1
       plan['chunks'] = None
+    if good and idx % 4 == 1:
+      # a client that is used at once, while it is still opening (no waiting for the open at build time, the
+      # connect takes 50 ms): the call is issued before the open completes and has the same outcome
+      classes.add('call-issued-while-opening')
+      plan['chunks'] = None
+      srv.sim.connect_latency = 0.05
+      early = Thrift.NewBuilder(Iface).SetUri('tcp://th:%d' % self.port).SetTimeout(30).SetOpenTimeout(0).Build()
+      client_, client = client, early
+      try:
+        if judge(call_once(), 'none, call issued while the client was opening'):
+          done += 1
+      finally:
+        client = client_
+        srv.sim.connect_latency = 0.0005
     # ---- concurrent calls on a fresh client (no idle pooled connection): every request the
     # library decodes must be one of the calls made, every caller gets the reply to its own
     if good and expected[0] == 'value' and idx % 3 == 0:
